@@ -7,43 +7,57 @@ namespace F1.Props.Refine
 open F1.MiniGo F1.Generated.MG
 
 /-- the monotonic clock is an external: its `k`-th reading is `clock k`; `metrics.Result(b)` is a conversion -/
-def runExt (clock : Nat → Int) : Ext Rat := fun f k args =>
+def runExt (clock : Nat → Int) (panics : Bool := false) : Ext Rat := fun f k args =>
   if f = "xtime.NanoTime" then .int (clock k)
   else if f = "metrics.Result" then (match args with | [v] => v | _ => .nil)
+  else if f = "$dyn.panics" then .bool panics
   else .nil
 
 def runState (name : Nat) (failed : Bool) : State Rat :=
-  State.ofVars [("recv.scenario.Name", .ref name), ("arg0.t", .nonNil), ("arg0.t.Failed()", .bool failed)]
+  State.ofVars [("recv.scenario.Name", .ref name), ("arg0.t", .nonNil), ("arg0.t.Failed()", .bool failed),
+    ("recv.scenario.RunFn", .ref 7)]
 
 /-- **C17 (what is measured) on the code as it is now.** One iteration through the regenerated `ActiveScenario.Run`:
 the clock is read, then the body runs inside its panic handler, then the clock is read again; the duration handed to the
 exported metric *and* to the progress statistics is the difference of exactly those two readings, with the outcome
-`T.Failed()` reported after the body; both records happen before the iteration's cleanups (`teardown` is last) -/
-theorem active_Run_window (clock : Nat → Int) (name : Nat) (failed : Bool) :
-    traceOf (runFn (runExt clock) 0 active_Run (runState name failed)) =
-      ["xtime.NanoTime", "recv.scenario.RunFn(…)", "testing.CheckResults", "xtime.NanoTime",
-       "recv.m.RecordIterationResult(…)", "recv.progress.Record(…)", "arg0.teardown"] ∧
-    observe (runFn (runExt clock) 0 active_Run (runState name failed))
+`T.Failed()` reported after the body; both records happen before the iteration's cleanups (`teardown` is last).
+**C07 (a panic is confined)**: when the body panics (`panics`), the deferred `CheckResults` — which calls `recover` —
+ends the panic inside the inner block, and everything after it happens exactly as for a body that returned: second clock
+reading, both records, the cleanups; `Run` itself returns normally, so the worker goes on. -/
+theorem active_Run_window (clock : Nat → Int) (name : Nat) (failed panics : Bool) :
+    traceOf (runFn (runExt clock panics) 0 active_Run (runState name failed)) =
+      ["xtime.NanoTime", "recv.scenario.RunFn(…)", "testing.CheckResults", "<recover>"] ++
+      (if panics then ["<recovered>"] else []) ++
+      ["xtime.NanoTime", "recv.m.RecordIterationResult(…)", "recv.progress.Record(…)", "arg0.teardown"] ∧
+    observe (runFn (runExt clock panics) 0 active_Run (runState name failed))
         ["$arg.recv.m.RecordIterationResult.0", "$arg.recv.m.RecordIterationResult.1", "$arg.recv.m.RecordIterationResult.2",
          "$arg.recv.progress.Record.0", "$arg.recv.progress.Record.1"] =
       some ([], [some (.ref name), some (.bool failed), some (.int (clock 1 - clock 0)),
-                 some (.bool failed), some (.int (clock 1 - clock 0))]) := by
-  simp [minigo, active_Run, runState, runExt]
+                 some (.bool failed), some (.int (clock 1 - clock 0))]) ∧
+    -- the body was called once, with the iteration's handle
+    (match runFn (runExt clock panics) 0 active_Run (runState name failed) with
+     | .ok (_, s) => lookup "$dyn" s.arrs = some [[("0", Val.ref 7), ("1", Val.nonNil)]]
+     | .error _ => False) := by
+  cases panics <;> simp [minigo, active_Run, runState, runExt]
 
 def setupState (name : Nat) (failed : Bool) : State Rat :=
   State.ofVars [("recv.scenario.Name", .ref name), ("recv.t", .nonNil), ("recv.t.Failed()", .bool failed),
-    ("recv.scenario.RunFn", .nil)]
+    ("recv.scenario.RunFn", .nil), ("recv.scenario.ScenarioFn", .ref 8)]
 
 /-- `Setup`: the scenario function runs once inside its panic handler, between two clock readings; one setup record with
 the outcome of the setup handle and that duration -/
-theorem active_Setup_window (clock : Nat → Int) (name : Nat) (failed : Bool) :
-    traceOf (runFn (runExt clock) 0 active_Setup (setupState name failed)) =
-      ["xtime.NanoTime", "testing.CheckResults", "xtime.NanoTime", "recv.m.RecordSetupResult(…)"] ∧
-    observeC (runFn (runExt clock) 0 active_Setup (setupState name failed))
+theorem active_Setup_window (clock : Nat → Int) (name : Nat) (failed panics : Bool) :
+    traceOf (runFn (runExt clock panics) 0 active_Setup (setupState name failed)) =
+      ["xtime.NanoTime", "recv.scenario.ScenarioFn(…)", "testing.CheckResults", "<recover>"] ++
+      (if panics then ["<recovered>"] else []) ++ ["xtime.NanoTime", "recv.m.RecordSetupResult(…)"] ∧
+    observeC (runFn (runExt clock panics) 0 active_Setup (setupState name failed))
         ["$arg.recv.m.RecordSetupResult.0", "$arg.recv.m.RecordSetupResult.1", "$arg.recv.m.RecordSetupResult.2"]
-        ["recv.scenario.ScenarioFn"] =
-      some ([], [some (.ref name), some (.bool failed), some (.int (clock 1 - clock 0))], [1]) := by
-  simp [minigo, active_Setup, setupState, runExt]
+        ["$dyn"] =
+      some ([], [some (.ref name), some (.bool failed), some (.int (clock 1 - clock 0))], [1]) ∧
+    -- a setup that panics leaves no iteration function behind
+    observe (runFn (runExt clock panics) 0 active_Setup (setupState name failed)) ["recv.scenario.RunFn"] =
+      some ([], [some (if panics then .nil else runExt clock panics "$dyn" 0 [.int 0, .ref 8, .nonNil])]) := by
+  cases panics <;> simp [minigo, active_Setup, setupState, runExt]
 
 /-- a dropped iteration is recorded once in the metric and once in the progress statistics, as dropped, with no duration -/
 theorem active_RecordDropped_refines (name : Nat) :
